@@ -36,7 +36,7 @@ macro "presok_step" : tactic => `(tactic| first
   | (refine presOk_modify (fun _ => ?_); exact ⟨StackSame.refl _, rfl⟩)
   | split)
 
-theorem presOk_mkRow (k v : Val) : PresOk Bal (mkRow k v) := by
+theorem presOk_mkRow (k v b : Val) : PresOk Bal (mkRow k v b) := by
   unfold mkRow
   repeat presok_step
 
@@ -66,8 +66,16 @@ theorem presOk_toArrayStep (out : Nat) (x : Val × Val) (i : Nat) : PresOk Bal (
   unfold toArrayStep
   repeat presok_step
 
+theorem presOk_sortTail (kd : List (Val × Val × Val)) (h : Heap) : PresOk Bal (sortTail kd h) := by
+  unfold sortTail
+  repeat first
+    | with_reducible exact presOk_sortInsertStep _ _ _
+    | with_reducible exact presOk_sortDropStep _ _
+    | presok_step
+
 macro "presok_step2" : tactic => `(tactic| first
-  | with_reducible exact presOk_mkRow _ _
+  | with_reducible exact presOk_sortTail _ _
+  | with_reducible exact presOk_mkRow _ _ _
   | with_reducible exact presOk_scanStep _ (by assumption) _ _
   | with_reducible exact presOk_sortKeyStep (by assumption) _ _
   | with_reducible exact presOk_sortInsertStep _ _ _
